@@ -24,7 +24,7 @@ RULE = ("one case = query (flat / abundance, 5-200 hashes) + 1-3 LinearIndex dat
 
 def extra(chk, pkg):
     """thorough tier: the `sourmash gather` command line (prefetch and --no-prefetch, --ignore-abundance,
-    --output-unassigned) on files, against the in-process observations of the same case"""
+    --output-unassigned) and `sourmash multigather` on files, against the in-process observations of the same case"""
     if chk.tier != "thorough":
         return
     import cli_lib, common
@@ -44,6 +44,17 @@ def extra(chk, pkg):
             chk.add_violation("cli", sig, msg, data)
     chk.cov["cli_gather_cases"] = len(jobs)
     chk.cov["cli_gather_rounds_compared"] = nrows
+    # `sourmash multigather` (its own ident / noident split) on the prefetch-mode cases
+    mjobs = [(c, i, pkg) for c, i, _ in jobs if any(l.startswith("split ") for l in c)]
+    mout = common.par_map(cli_lib.cli_multigather_case, mjobs, procs=16)
+    mrows = 0
+    for (c, i, _), bad in zip(mjobs, mout):
+        chk.cov["evaluations"] += 1
+        mrows += sum(1 for o in i if o.startswith("ok rank="))
+        for sig, msg, data in bad:
+            chk.add_violation("cli", sig, msg, data)
+    chk.cov["cli_multigather_cases"] = len(mjobs)
+    chk.cov["cli_multigather_rounds_compared"] = mrows
 
 
 if __name__ == "__main__":
